@@ -58,7 +58,7 @@ def model_line(op, out, st):
         for k, sp in enumerate(specs):
             q = sp.split(":")
             mask = int(q[2], 16)
-            gs.append(f"{q[0]}:{popcount(mask)}:{q[2]}:{q[3]}:0:{k}")
+            gs.append(f"{q[0]}:{popcount(mask)}:{q[2]}:{q[3]}:0:{k}:{q[1]}")
         st["n"] = n
         return f"init {rfield(right, 'chained')} {rfield(right, 'sigLen')} {f[5]} {n} " + " ".join(gs)
     if f[0] in ("deliver", "replay"):
@@ -82,7 +82,7 @@ def model_line(op, out, st):
 
 
 def _run_chunk(binary, args, lines):
-    rc, out, err = core.run_lines(binary, args, lines, timeout=1500, env=dict(os.environ, GOMEMLIMIT="4GiB"))
+    rc, out, err = core.run_lines(binary, args, lines, timeout=1500, env=dict(os.environ, GOMEMLIMIT="4GiB", GOMAXPROCS="2"))
     return rc, out, err
 
 
@@ -334,3 +334,296 @@ def confirm(s, kind_pred, times=3):
         if not kind_pred(t):
             return False
     return True
+
+
+# ---------------------------------------------------------------------------------------------------------
+# generators (every choice from a core.Rng)
+
+FORGE_KINDS = ["wrongshare", "wronground", "wrongprev-claimed", "wrongprev-signed", "nonmember", "ownshare", "trunc", "flip",
+               "replay", "past", "future", "oldpoly", "flipidx"]
+
+
+def group_specs(n, t):
+    full = (1 << n) - 1
+    if n < 3:
+        return []
+    return [f"{t}:{t}:{full:x}:0",                       # 1: reshared polynomial, same members
+            f"{t}:{t}:{full & ~(1 << (n - 1)):x}:0",     # 2: last member left
+            f"{t}:{t}:{full:x}:1",                       # 3: indices 0 and 1 listed with swapped identities
+            f"{t - 1}:{t}:{full:x}:0"]                   # 4: group file threshold below the polynomial's
+
+
+class Gen:
+    def __init__(self, rng, scheme, n, t, backend, polyseed, extra=True):
+        self.rng, self.scheme, self.n, self.t = rng, scheme, n, t
+        self.chained = scheme == SCHEMES[0]
+        specs = group_specs(n, t) if extra else []
+        full = (1 << n) - 1
+        self.groups = [{"thr": t, "pthr": t, "mask": full, "swap": False}]
+        for sp in specs:
+            q = sp.split(":")
+            self.groups.append({"thr": int(q[0]), "pthr": int(q[1]), "mask": int(q[2], 16), "swap": q[3] == "1"})
+        seed = rng.choice(["aabb", "5eed00", "01"])
+        self.ops = [f"init {scheme} {n} {t} {backend} {seed} {polyseed} " + " ".join(specs)]
+        self.H, self.next, self.L, self.sent = 0, 2, 0, 0
+        self.kinds = {}
+
+    def note(self, k):
+        self.kinds[k] = self.kinds.get(k, 0) + 1
+
+    def others(self):
+        """member indices of the live group a network partial may legitimately come from"""
+        g = self.groups[self.L]
+        ours = {0, 1} if g["swap"] else {0}
+        return [i for i in range(self.n) if (g["mask"] >> i) & 1 and i not in ours]
+
+    def ensure_clock(self, r):
+        if self.next < r:
+            self.next = r + self.rng.below(2)
+            self.ops.append(f"tick {self.next}")
+
+    def honest(self, j, R=None, P=None, L=None):
+        R = self.H + 1 if R is None else R
+        P = f"T{self.H}" if P is None else P
+        L = self.L if L is None else L
+        self.sent += 1
+        self.note("honest")
+        return f"deliver {j} {L} {R} {P} {R} {P} - - -"
+
+    def forged(self, kind=None):
+        rng = self.rng
+        kind = kind or rng.choice(FORGE_KINDS)
+        R, P, L, n = self.H + 1, f"T{self.H}", self.L, self.n
+        j = rng.below(n)
+        self.note(kind)
+        self.sent += 1
+        if kind == "wrongshare":
+            i = (j + 1 + rng.below(max(1, n - 1))) % n
+            return f"deliver {i} {L} {R} {P} {R} {P} {j} - -"
+        if kind == "wronground":
+            return f"deliver {j} {L} {R} {P} {R + 1 + rng.below(2)} {P} - - -"
+        if kind == "wrongprev-claimed":
+            return f"deliver {j} {L} {R} J{rng.below(3)} {R} {P} - - -"
+        if kind == "wrongprev-signed":
+            return f"deliver {j} {L} {R} {P} {R} J{rng.below(3)} - - -"
+        if kind == "nonmember":
+            return f"deliver {j} {L} {R} {P} {R} {P} {rng.choice([n, n + 3, 255, 65535])} - -"
+        if kind == "ownshare":
+            return f"deliver 0 {L} {R} {P} {R} {P} - - -"
+        if kind == "trunc":
+            return f"deliver {j} {L} {R} {P} {R} {P} - {rng.choice([0, 1, 2, 3, 20, 47, 49, 95, 97])} -"
+        if kind == "flip":
+            return f"deliver {j} {L} {R} {P} {R} {P} - - {16 + rng.below(700)}"
+        if kind == "flipidx":
+            return f"deliver {j} {L} {R} {P} {R} {P} - - {rng.below(16)}"
+        if kind == "replay":
+            return f"replay {rng.below(max(1, self.sent))}"
+        if kind == "past":
+            r = max(0, self.H - rng.below(2))
+            return f"deliver {j} {L} {r} T{max(0, r - 1)} {r} T{max(0, r - 1)} - - -"
+        if kind == "future":
+            r = self.next + 1 + rng.below(3)
+            return f"deliver {j} {L} {r} {P} {r} {P} - - -"
+        if kind == "oldpoly":
+            k = rng.below(len(self.groups))
+            return f"deliver {j} {k} {R} {P} {R} {P} - - -"
+        raise ValueError(kind)
+
+    def round_by_partials(self, size=None, with_own=None, order=None, noise=0):
+        """contributions of `size` distinct members (own included iff with_own) for round H+1, in the given or a random order"""
+        rng = self.rng
+        g = self.groups[self.L]
+        oth = self.others()
+        R = self.H + 1
+        self.ensure_clock(R)
+        with_own = rng.chance(1, 2) if with_own is None else with_own
+        if size is None:
+            size = rng.choice([g["thr"] - 1, g["thr"], g["thr"], g["thr"] + 1, len(oth) + 1])
+        size = max(0, min(size, len(oth) + (1 if with_own else 0)))
+        picks = rng.shuffle(oth)[:size - (1 if with_own else 0)]
+        members = ([0] if with_own and size > 0 else []) + picks
+        members = order if order is not None else rng.shuffle(members)
+        for m in members:
+            for _ in range(noise):
+                if rng.chance(1, 2):
+                    self.ops.append(self.forged())
+            if m == 0:
+                self.ops.append(f"own {R}")
+                self.sent += 1
+                self.note("own")
+            else:
+                self.ops.append(self.honest(m))
+        if len(members) >= g["thr"] and g["thr"] >= g["pthr"]:
+            self.H = R
+            return True
+        return False
+
+    def syncput(self):
+        self.ops.append(f"syncput {self.H + 1} T{self.H}")
+        self.H += 1
+        self.note("syncput")
+
+    def trynode(self):
+        rng = self.rng
+        k = rng.range(1, 4)
+        upTo = self.H + rng.range(1, k + 1)
+        pk = []
+        ok = True
+        h = self.H
+        for r in range(self.H + 1, self.H + k + 1):
+            v = rng.choice(["v", "v", "v", "v", "n", f"f{rng.below(300)}", f"w{r + 1}", "x", "vx"])
+            P = f"T{r - 1}" if rng.chance(5, 6) else f"J{rng.below(3)}"
+            if rng.chance(1, 12):
+                r = r + 1
+            pk.append(f"{r}:{P}:{v}")
+            good = v in ("v", "n") and (P.startswith("T") or not self.chained) and r == h + 1
+            if ok and good:
+                h = r
+                if r == upTo:
+                    ok = False
+            else:
+                ok = False
+        self.H = h
+        self.ops.append(f"trynode {upTo} " + " ".join(pk))
+        self.note("trynode")
+
+    def reads(self):
+        rng = self.rng
+        for _ in range(rng.range(1, 4)):
+            c = rng.below(100)
+            r = rng.choice([0, 1, self.H, self.H, max(0, self.H - 1), self.H + 2, self.H + 5, rng.below(self.H + 2)])
+            if c < 22:
+                self.ops.append(f"get {r}")
+            elif c < 32:
+                self.ops.append("last")
+            elif c < 40:
+                self.ops.append("scan")
+            elif c < 58:
+                self.ops.append(f"pubrand {r}")
+            elif c < 76:
+                self.ops.append(f"proxyget {r}")
+            elif c < 79:
+                self.ops.append(f"{rng.choice(['pubrand', 'proxyget'])} {self.H + 1}")
+            else:
+                via = rng.choice(["sync", "pub"])
+                frm = rng.choice([0, 1, self.H, max(1, self.H - 2), self.H + 1, self.H + 3])
+                if rng.chance(1, 2):
+                    self.ops.append(f"serve {frm} {via} {self.H + 1} T{self.H}")
+                    if frm <= self.H:
+                        self.H += 1
+                else:
+                    self.ops.append(f"serve {frm} {via}")
+            self.note("read")
+
+    def setinfo(self):
+        if len(self.groups) > 1:
+            self.L = self.rng.below(len(self.groups))
+            self.ops.append(f"setinfo {self.L}")
+            self.note("setinfo")
+
+
+def gen_c01(rng, scheme, n, t, backend, blocks, polyseed):
+    g = Gen(rng, scheme, n, t, backend, polyseed)
+    for _ in range(blocks):
+        c = rng.below(100)
+        if c < 38:
+            g.round_by_partials(noise=rng.below(3))
+        elif c < 48:
+            g.syncput()
+        elif c < 60:
+            g.trynode()
+        elif c < 80:
+            g.reads()
+        elif c < 86:
+            g.setinfo()
+        else:
+            for _ in range(rng.range(1, 4)):
+                g.ensure_clock(g.H + 1)
+                g.ops.append(g.forged())
+    g.ops += ["scan", "last", "proxyget 0"]
+    return Seq(g.ops, {"scheme": scheme, "n": n, "t": t, "backend": backend, "kinds": g.kinds})
+
+
+def permutations(xs):
+    if len(xs) <= 1:
+        yield list(xs)
+        return
+    for i in range(len(xs)):
+        for p in permutations(xs[:i] + xs[i + 1:]):
+            yield [xs[i]] + p
+
+
+def subsets(xs, k):
+    if k == 0:
+        yield []
+        return
+    for i in range(len(xs)):
+        for s in subsets(xs[i + 1:], k - 1):
+            yield [xs[i]] + s
+
+
+def gen_c03(rng, scheme, n, t, backend, polyseed, exhaustive, nrandom):
+    """threshold scenarios: for each contributing subset S of size t-1, t, t+1 (own partial included or not) and arrival
+    order, one round: deliver in that order, interleaved with forged partials from up to n-t corrupted members outside S;
+    afterwards the round is closed by a sync put when the node itself did not create it"""
+    g = Gen(rng, scheme, n, t, backend, polyseed, extra=False)
+    members = list(range(n))
+    scen = []
+    if exhaustive:
+        for k in (t - 1, t, t + 1):
+            if k < 0 or k > n:
+                continue
+            for S in subsets(members, k):
+                for order in permutations(S):
+                    scen.append(order)
+    else:
+        for _ in range(nrandom):
+            k = rng.choice([t - 1, t, t + 1])
+            k = max(0, min(n, k))
+            scen.append(rng.shuffle(rng.shuffle(members)[:k]))
+    attempts = []
+    for order in scen:
+        R = g.H + 1
+        g.ensure_clock(R)
+        start = len(g.ops)
+        corrupted = [m for m in members if m not in order and m != 0][:max(0, n - t)]
+        for m in order:
+            for c in corrupted:
+                if rng.chance(1, 3):
+                    kind = rng.choice(["wrongshare", "wronground", "wrongprev-signed", "flip", "trunc", "nonmember", "replay", "oldpoly"])
+                    if kind in ("wrongshare",):
+                        i = (c + 1) % n
+                        g.ops.append(f"deliver {i} 0 {R} T{g.H} {R} T{g.H} {c} - -")
+                    elif kind == "wronground":
+                        g.ops.append(f"deliver {c} 0 {R} T{g.H} {R + 1} T{g.H} - - -")
+                    elif kind == "wrongprev-signed":
+                        g.ops.append(f"deliver {c} 0 {R} T{g.H} {R} J1 - - -")
+                    elif kind == "flip":
+                        g.ops.append(f"deliver {c} 0 {R} T{g.H} {R} T{g.H} - - {16 + rng.below(300)}")
+                    elif kind == "trunc":
+                        g.ops.append(f"deliver {c} 0 {R} T{g.H} {R} T{g.H} - {rng.choice([1, 2, 30])} -")
+                    elif kind == "nonmember":
+                        g.ops.append(f"deliver {c} 0 {R} T{g.H} {R} T{g.H} {n + 1} - -")
+                    elif kind == "replay":
+                        g.ops.append(f"replay {rng.below(max(1, g.sent))}")
+                    g.sent += 1
+                    g.note(kind)
+            if m == 0:
+                g.ops.append(f"own {R}")
+                g.note("own")
+            else:
+                g.ops.append(g.honest(m))
+            g.sent += 0
+            # a duplicate of the same member must not count twice
+            if rng.chance(1, 4) and m != 0:
+                g.ops.append(g.honest(m))
+                g.note("duplicate")
+        made = len(order) >= t
+        attempts.append({"round": R, "order": order, "start": start, "end": len(g.ops), "expect": made})
+        if made:
+            g.H = R
+        else:
+            g.ops.append(f"get {R}")
+            g.syncput()
+    g.ops += ["scan"]
+    return Seq(g.ops, {"scheme": scheme, "n": n, "t": t, "backend": backend, "kinds": g.kinds, "attempts": attempts})
